@@ -16,7 +16,8 @@ THEOREMS = ['C08_limit_best_is_fold', 'C08_limit_best_general', 'C08_limit_best_
             'C08_serial_enforce', 'C08_enforce_total',
             'C08_value_of_spec', 'C08_value_of_no_fuel_exhaustion', 'C08_value_of_rebind_refuted',
             'C08_value_of_order_independent',
-            'C08_complete_frames_total', 'C08_classical_finish_refuted', 'C08_classical_finish_repaired']
+            'C08_complete_frames_total', 'C08_classical_finish_refuted', 'C08_classical_finish_repaired',
+            'C08_finish_fixed_classical']
 
 
 def chunks(l, n):
@@ -149,6 +150,12 @@ def static_obligations(chk, logics):
             if comb in ('k3wq', 'kk3wq'):
                 exprs.append(f'(fold_ac ML_{i} Disjunction, fold_ac ML_{i} Conjunction)')
                 meta.append(('ac', L, kind))
+    for L in logics:
+        if L['hooks']['finish'] == 'cpl':
+            i = coqgen.ident(L['name'])
+            fn = 'run_fixed' if L.get('classical_fixed') else 'run'
+            exprs.append(f'match {fn} ML_{i} [0; 1; 2] all_pord wit_chain with Some st => classical_okb st | None => false end')
+            meta.append(('classical', L, fn))
     hdr = mlib.HEADER + 'Require Import GC08.Logics.\n'
     answers = mlib.coq_eval(PID, hdr, exprs, name='Status', shard=120)
     lemmas = [hdr, 'From PTProps Require Import C08.\n']
@@ -161,7 +168,7 @@ def static_obligations(chk, logics):
             chk.obligation(f'{n}:tables closed on the value set', c_ok)
             if b_ok:
                 lemmas.append(f'Lemma obl_bounds_{i} : bounds_ok ML_{i} = true.\nProof. vm_compute. reflexivity. Qed.\n'
-                              '')
+                              f'Definition C08_value_of_spec_{i} := C08_value_of_spec ML_{i} obl_bounds_{i}.\n')
             else:
                 lemmas.append(f'Lemma obl_bounds_{i}_refuted : bounds_ok ML_{i} = false.\nProof. vm_compute. reflexivity. Qed.\n')
                 chk.violation(f'bounds:{n}', f'{n}: minval/maxval are not the bounds F/T of the value set; '
@@ -172,6 +179,10 @@ def static_obligations(chk, logics):
             else:
                 chk.violation(f'closed:{n}', f'{n}: truth tables / unassigned value leave the value set',
                               dict(kind='obligation', logic=n, obligation='vals_closed'), found_input=False)
+        elif what == 'classical':
+            ok = ans.strip() == 'true'
+            chk.obligation(f'{n}:classical_finish on the witness history a=b, b=c, Fa ({kind})', ok)
+            lemmas.append(f'Lemma obl_classical_{i} : {e} = {"true" if ok else "false"}.\nProof. vm_compute. reflexivity. Qed.\n')
         elif what == 'gen':
             ok = ans.strip() == 'None'
             chk.obligation(f'{n}:generaliser:{kind} reproduces value_of on every list of length <= 3', ok)
